@@ -120,12 +120,29 @@ def opStep (std : Stdlib) (s : OpState) (op : Op) : Outcome OpOut × OpState :=
       | .panic m => (.panic m, none)
       | .fuel => (.fuel, none)
   | .remove h name idx o =>
-    withNode h fun node _ =>
+    let (out, s') := withNode h fun node _ =>
       match pathRemove tcPlain (parsePathIdx name idx o) node with
       | .ok (n', r) => (.ok (.bool r), some n')
       | .err e => (.err e, none)
       | .panic m => (.panic m, none)
       | .fuel => (.fuel, none)
+    -- a handle is a live view of its node: when a list element in front of it is removed it follows its node down
+    -- (fields.delAt shifts the elements); a handle into the removed element no longer addresses anything in the tree
+    match out, s.handles[h]? with
+    | .ok (.bool true), some p =>
+      let rp := p ++ parsePathIdx name idx o
+      (match rp.reverse with
+       | .idx i :: revPre =>
+         let pre := revPre.reverse
+         let shift (hp : List Field) : List Field :=
+           if pre.isPrefixOf hp then
+             match hp.drop pre.length with
+             | .idx j :: rest => if j > i then pre ++ (.idx (j - 1) :: rest) else if j == i then [.named "\x00detached"] else hp
+             | _ => hp
+           else hp
+         (out, { s' with handles := s'.handles.map shift })
+       | _ => (out, s'))
+    | _, _ => (out, s')
   | .merge h frm o =>
     withNode h fun node _ =>
       match cfgMerge o node frm with
